@@ -12,7 +12,7 @@ def leafset(maxleaf, dt="int64"):
 def session_consts(**kw):
     c = dict(LeafSet=leafset(3), MaxLen="2", MaxDepth="2", Classes=ALL_CLASSES, OpSet="{}", ValidOnly="TRUE",
              SliceItems="{}", SliceTuples="{}", Axes="{-3,-2,-1,0,1,2,3}", Targets="{0,1,2,3}", CombNs="{0,1,2,3}",
-             ReduceArgs="AllReduceArgs", EmitOn="TRUE")
+             ReduceArgs="AllReduceArgs", SortArgs="AllSortArgs", EmitOn="TRUE")
     c.update(kw)
     return c
 
@@ -171,3 +171,22 @@ def run_C08(ctx):
 
 
 RUNNERS["C08"] = run_C08
+
+
+# ------------------------------------------------------------------ C06 (sort / argsort)
+SORT_LEAVES = ('{Numpy("int64", d) : d \\in {<<>>, <<1>>, <<2,1>>, <<1,1,0>>}} \\cup '
+               '{Numpy("float64", d) : d \\in {<<2,-777,1>>, <<-777,3>>, <<1,-777>>}}')
+
+
+def run_C06(ctx):
+    ctx.build("opt")
+    consts = session_consts(OpSet='{"sort"}', LeafSet=SORT_LEAVES,
+                            Classes='{"ListOffset","List","Regular","IndexedOption","ByteMasked","Indexed"}',
+                            Axes="{-3,-2,-1,0,1,2}", SortArgs="RandomSubset(%d, AllSortArgs)" % (3 if ctx.quick() else 8))
+    ctx.tlc_phase("sort", "Session", consts, invariants=["Refines", "Closed"], seed_tlc=True,
+                  require_actions=["SortOp", "WrapListOffset", "WrapList", "WrapRegular", "WrapIndexedOption"])
+    return ctx.finish(assumptions=["float leaves hold small integers and NaN only; strings are not modelled yet",
+                                   "non-innermost sort with missing lists inside a group is Unspec in the model"])
+
+
+RUNNERS["C06"] = run_C06
